@@ -32,7 +32,7 @@ RULE = ("exhaustive: every sequence of length <= 5 over 3 keys (thorough: <= 6 o
         "[-1, keys], comparators less / greater / mod-3 / key-with-tag, predicates ==, mod-3-equivalence, < ; sorted "
         "pairs of tagged sequences for merge / set operations / includes; iterator flavours pointer, forward, "
         "bidirectional, input(+output) (all flavours on every case for the category-dependent algorithms, on a "
-        "deterministic quarter of the cases for the others); plus seeded random longer inputs; a deterministic tenth of all "
+        "deterministic quarter of the cases for the others); plus seeded random longer inputs; a deterministic sixteenth of all "
         "case lines of the predicate- / comparator-taking operations again with a predicate returning int (truthy 2, -1, 4096) "
         "or a class type contextually convertible to bool (suffix _t1.._t4); "
         "non-trivial = distinct case line whose impl outcome is ok")
@@ -365,13 +365,13 @@ def gen(tier, rng):
             out.append(f"{op} {f3} 1 {c} {L(sl)} {L(ss)}")
     # ---- fix-miss round 4: predicates / comparators whose result is NOT bool (op suffix _t1 int 2, _t2 int -1, _t3 int 4096,
     # _t4 class type contextually convertible to bool) for every predicate- or comparator-taking operation: a deterministic
-    # tenth of all their case lines (every flavour, every predicate id), the kind chosen by the same hash
+    # sixteenth of all their case lines (every flavour, every predicate id), the kind chosen by the same hash
     extra = []
     for c in out:
         op = c.split(" ", 1)[0]
         if op in PRED_OPS:
             h = zlib.crc32(c.encode())
-            if h % 10 == 0:
+            if h % 16 == 0 or op in ("min", "max", "minmax", "clamp"):     # (the four small families: every line)
                 extra.append(f"{op}_t{1 + (h >> 8) % 4} {c.split(' ', 1)[1]}")
     return out + extra
 
